@@ -49,6 +49,20 @@ CHECKS.update({
             "DESIGN.md section 3 C01"),
 })
 
+CHECKS.update({
+    "C09": ("Bounded symbolic execution of curl.generate with symbolic header values / body / method; the argv a POSIX shell would build is "
+            "recovered exactly (shlex.quote replaced by a placeholder) and interpreted by a model of curl's option semantics; the request curl "
+            "would send is compared with the original. Plus prepare_request with the sanitize switch and find_failure_data symbolically. "
+            "Two listed known findings (empty header value, body starting with '@').",
+            "CrossHair symbolic execution (z3) of curl.generate/_filter_headers/prepare_request/find_failure_data against a curl(1) option model",
+            "DESIGN.md section 3 C09"),
+    "C17": ("Bounded symbolic execution of the example extraction and combination code: produce_combinations with symbolic example counts, "
+            "extract_inner_examples with symbolic entry kinds, extract_from_schema with symbolic placements on properties, extract_top_level / "
+            "extract_from_schemas on real 3.0 and 2.0 operations with symbolic placement pairs; every declared example must reach a case unchanged.",
+            "CrossHair symbolic execution (z3) of produce_combinations/extract_inner_examples/extract_from_schema/extract_top_level",
+            "DESIGN.md section 3 C17"),
+})
+
 NOT_APPLICABLE = {
     "C13": "Seed reproducibility is a 2-run hyper-property of the whole program through Hypothesis' engine, its PRNG, identity-keyed caches and "
            "set iteration order; none of it can be made a symbolic variable of a bounded encoding, and the only solver-shaped fragment "
